@@ -14,7 +14,7 @@ Import ListNotations.
 (* The decisions of PrepareFence / CommitFence / RollbackFence, the old status of the compare-and-set
    and the phase dispatch of DoFence are NOT written here: they are the tables gen_prepare,
    gen_commit, gen_rollback, gen_cas_old, gen_dispatch regenerated from the Go source. *)
-Inductive errc := ENone | EFault | EDup | ERefused.
+Inductive errc := ENone | EFault | EDup | ERefused | ELocked.   (* ELocked: lock wait timeout (1205) *)
 Inductive opk := OBegin | OPrepIns | OIns | OPrepSel | OSel | OPrepUpd | OUpd | OBiz | OCommit | ORollback.
 
 Inductive pcT :=
@@ -37,7 +37,7 @@ Definition phase_eqb (a b : phase) : bool :=
 
 Definition errc_eqb (a b : errc) : bool :=
   match a, b with
-  | ENone, ENone | EFault, EFault | EDup, EDup | ERefused, ERefused => true
+  | ENone, ENone | EFault, EFault | EDup, EDup | ERefused, ERefused | ELocked, ELocked => true
   | _, _ => false
   end.
 
@@ -166,6 +166,12 @@ Definition commit_row (t : thread) (sh : shared) : shared :=
 (* drv = the delivery goes through the seata-fence-mysql proxy driver (FenceConn.BeginTx runs the
    fence in a SECOND transaction B, the business runs on the target transaction A, FenceTx commits A
    then B) instead of calling WithFence with the business as callback *)
+(* the key's lock is held by somebody else (the racing delivery, or a transaction that was leaked):
+   in a race the scheduler never steps such a delivery (it waits); alone, the statement ends in MySQL's
+   lock wait timeout *)
+Definition blocked (tid : bool) (sh : shared) : bool :=
+  match s_owner sh with Some o => negb (Bool.eqb o tid) | None => false end.
+
 Definition step (drv prep : bool) (tid : bool) (t : thread) (sh : shared) : thread * shared :=
   match t_pc t with
   | PcDone => (t, sh)
@@ -186,6 +192,7 @@ Definition step (drv prep : bool) (tid : bool) (t : thread) (sh : shared) : thre
   | PcIns s k =>
       let f := faulted t in let t1 := tick t OIns in
       if f then (fail t1 EFault PcRollback, sh)
+      else if blocked tid sh then (fail t1 ELocked PcRollback, sh)
       else let sh1 := lock tid sh in
            match view t sh with
            | Some _ => (fail t1 EDup PcRollback, sh1)
@@ -198,6 +205,7 @@ Definition step (drv prep : bool) (tid : bool) (t : thread) (sh : shared) : thre
   | PcSel =>
       let f := faulted t in let t1 := tick t OSel in
       if f then (fail t1 EFault PcRollback, sh)
+      else if blocked tid sh then (fail t1 ELocked PcRollback, sh)
       else let v := view t sh in
            (after_select drv prep t1 v, match v with Some _ => lock tid sh | None => sh end)
   | PcPrepUpd s =>
@@ -206,6 +214,7 @@ Definition step (drv prep : bool) (tid : bool) (t : thread) (sh : shared) : thre
   | PcUpd s =>
       let f := faulted t in let t1 := tick t OUpd in
       if f then (fail t1 EFault PcRollback, sh)
+      else if blocked tid sh then (fail t1 ELocked PcRollback, sh)
       else let sh1 := lock tid sh in
            (* compare-and-set: the row must still have the status the UPDATE names *)
            match view t sh, gen_cas_old with
@@ -257,23 +266,38 @@ Fixpoint run1d (fuel : nat) (t : thread) (sh : shared) : thread * shared :=
 Definition deliver_drv (row : option status) (ph : phase) (fault : option nat) : thread * shared :=
   run1d 14 (init_thread true ph fault) (mkS row [] None).
 
-(* input predicates of the two known findings about the proxy-driver mode *)
-(* the fence decides the delivery without the business (duplicate phase two / empty rollback) *)
+(* a delivery (through WithFence or through the proxy driver) for a branch whose fence row may be
+   locked by a transaction that an earlier delivery leaked *)
+Definition deliver_l (drv locked : bool) (row : option status) (ph : phase) (fault : option nat) : thread * shared :=
+  (if drv then run1d 14 else run1 seq_fuel) (init_thread true ph fault)
+    (mkS row [] (if locked then Some true else None)).
+
+(* FenceTx.Commit commits the business transaction A and then, only if that succeeded, the fence
+   transaction B.  A failure of A's COMMIT therefore leaves NEITHER the effect NOR the record (and
+   leaks B with its row lock: later deliveries for the branch time out on it, changing nothing) -
+   the property holds there.  The input predicates of the two known findings are narrower: *)
+(* 1. the fence decides the delivery without the business (duplicate phase two / empty rollback)
+      AND the caller's business transaction gets committed *)
 Definition drv_decided (row : option status) (ph : phase) : bool :=
   match ph, row with
   | Commit, Some Committed => true
   | Rollback, None | Rollback, Some Rollbacked | Rollback, Some Suspended => true
   | _, _ => false
   end.
-(* the injected failure hits one of the two COMMITs *)
-Definition drv_fault_at_commit (row : option status) (ph : phase) (fault : option nat) : bool :=
-  let '(t, _) := deliver_drv row ph fault in
+Definition drv_decided_applied (locked : bool) (row : option status) (ph : phase) (fault : option nat) : bool :=
+  drv_decided row ph &&
+  let '(_, sh) := deliver_l true locked row ph fault in
+  match s_effs sh with [] => false | _ => true end.
+(* 2. the injected failure hits the SECOND COMMIT (the fence transaction's), after the business
+      transaction was committed *)
+Definition drv_fault_at_fence_commit (locked : bool) (row : option status) (ph : phase) (fault : option nat) : bool :=
+  let '(t, _) := deliver_l true locked row ph fault in
   match t_err t, t_trace t with
-  | EFault, OCommit :: _ => true
+  | EFault, OCommit :: OCommit :: _ => true
   | _, _ => false
   end.
-Definition drv_supported (row : option status) (ph : phase) (fault : option nat) : bool :=
-  negb (drv_decided row ph) && negb (drv_fault_at_commit row ph fault).
+Definition drv_supported (locked : bool) (row : option status) (ph : phase) (fault : option nat) : bool :=
+  negb (drv_decided_applied locked row ph fault) && negb (drv_fault_at_fence_commit locked row ph fault).
 
 (* ---- race of two deliveries of the same branch ---------------------------- *)
 Record rstate := mkR { r_t0 : thread; r_t1 : thread; r_sh : shared }.
@@ -392,34 +416,43 @@ Definition cancel_of (c : cell) : N := snd (c_cnt c).
 
 (* ---- histories that also contain deliveries through the proxy driver -------------- *)
 Inductive dop :=
-| DApi (o : hop)
-| DDrv (k : N) (ph : phase) (fault : option nat).
+| DApi (k : N) (ph : phase) (fault : option nat)     (* through WithFence with the business as callback *)
+| DDrv (k : N) (ph : phase) (fault : option nat).    (* through the proxy driver *)
 
-Definition dop_key (o : dop) : N := match o with DApi o => hop_key o | DDrv k _ _ => k end.
+Definition dop_key (o : dop) : N := match o with DApi k _ _ => k | DDrv k _ _ => k end.
 
-Definition dop_result (o : dop) (row : option status) : option status * list phase :=
+(* the world plus the branches whose fence row is locked by a leaked transaction *)
+Definition dworld := (world * list N)%type.
+Definition dinit : dworld := ([], []).
+Definition is_locked (l : list N) (k : N) : bool := existsb (N.eqb k) l.
+
+Definition dop_run (dw : dworld) (o : dop) : thread * shared :=
   match o with
-  | DApi o => hop_result o row
-  | DDrv _ ph fault => let '(_, sh) := deliver_drv row ph fault in (s_row sh, s_effs sh)
+  | DApi k ph fault => deliver_l false (is_locked (snd dw) k) (c_row (get (fst dw) k)) ph fault
+  | DDrv k ph fault => deliver_l true (is_locked (snd dw) k) (c_row (get (fst dw) k)) ph fault
   end.
 
-Definition apply_dop (w : world) (o : dop) : world :=
+Definition apply_dop (dw : dworld) (o : dop) : dworld :=
   let k := dop_key o in
-  let c := get w k in
-  let '(row', effs) := dop_result o (c_row c) in
-  set w k (mkC row' (add_effs (c_cnt c) effs)).
+  let c := get (fst dw) k in
+  let '(_, sh) := dop_run dw o in
+  (set (fst dw) k (mkC (s_row sh) (add_effs (c_cnt c) (s_effs sh))),
+   match s_owner sh with
+   | Some _ => if is_locked (snd dw) k then snd dw else k :: snd dw
+   | None => snd dw
+   end).
 
-Definition run_dhist (w : world) (h : list dop) : world := fold_left apply_dop h w.
+Definition run_dhist (dw : dworld) (h : list dop) : dworld := fold_left apply_dop h dw.
 
 (* is the operation, at the moment it is delivered, outside the two known findings? *)
-Definition dop_supported (w : world) (o : dop) : bool :=
+Definition dop_supported (dw : dworld) (o : dop) : bool :=
   match o with
-  | DApi _ => true
-  | DDrv k ph fault => drv_supported (c_row (get w k)) ph fault
+  | DApi _ _ _ => true
+  | DDrv k ph fault => drv_supported (is_locked (snd dw) k) (c_row (get (fst dw) k)) ph fault
   end.
 
-Fixpoint dhist_supported (w : world) (h : list dop) : bool :=
+Fixpoint dhist_supported (dw : dworld) (h : list dop) : bool :=
   match h with
   | [] => true
-  | o :: h' => dop_supported w o && dhist_supported (apply_dop w o) h'
+  | o :: h' => dop_supported dw o && dhist_supported (apply_dop dw o) h'
   end.
